@@ -77,9 +77,10 @@ ShapePreserves(g, sh) ==
                                                            /\ \A j \in DOMAIN c[i] : SameRing(sh.parts[i][j], c[i][j])
 
 (* ------------------- Impl: the four code paths as written ------------------- *)
-\* shapely.geometry.box(minx, miny, maxx, maxy): counter-clockwise from (maxx, miny), closed
-BoxRing(s, l, e, h) == <<<<e, l>>, <<e, h>>, <<s, h>>, <<s, l>>, <<e, l>>>>
-Close(r) == IF r[1] = r[Len(r)] /\ Len(r) >= 4 THEN r ELSE Append(r, r[1])       \* shapely closes an open ring
+\* shapely closes a ring that is open (or has fewer than 4 coordinates) by repeating its first point
+Close(r) == IF r[1] = r[Len(r)] /\ Len(r) >= 4 THEN r ELSE Append(r, r[1])
+\* shapely.geometry.box(minx, miny, maxx, maxy): counter-clockwise from (maxx, miny)
+BoxRing(s, l, e, h) == Close(<<<<e, l>>, <<e, h>>, <<s, h>>, <<s, l>>>>)
 \* conversion.py: one function per type
 ImplShape(g) ==
     LET c == g.coordinates IN
